@@ -295,6 +295,22 @@ func c06Programs(tier string) []*Spec {
 			{K: "incr", B: 0, N: 1}, {K: "incr", B: 1, N: 1}, {K: "refresh"}, {K: "refresh"}}
 		out = append(out, sp)
 	}
+	// pop mode: a priority change addressed to a finished bar one, two or three frames after it finished (before it
+	// gets its pop priority, between that frame and the one that pops it, after it was popped): it still rises above
+	// the running bars
+	for _, k := range []int{1, 2, 3} {
+		for _, how := range []string{"setprio", "prio"} {
+			sp := &Spec{Name: fmt.Sprintf("c06-pop-change-finished-bar-%s-after%d", how, k), Refresh: "manual", Q: -1, Pop: true}
+			sp.Bars = []BarSpec{{Total: 9}, {Total: 9}, {Total: 1}}
+			sp.Main = []Op{{K: "add", B: 0}, {K: "add", B: 1}, {K: "add", B: 2}, {K: "refresh"}, {K: "incr", B: 2, N: 1}}
+			for i := 0; i < k; i++ {
+				sp.Main = append(sp.Main, Op{K: "refresh"})
+			}
+			sp.Main = append(sp.Main, Op{K: how, B: 2, N: 50}, Op{K: "refresh"}, Op{K: "refresh"}, Op{K: "refresh"},
+				Op{K: "incr", B: 0, N: 9}, Op{K: "incr", B: 1, N: 9}, Op{K: "refresh"}, Op{K: "refresh"}, Op{K: "refresh"}, Op{K: "refresh"})
+			out = append(out, sp)
+		}
+	}
 	// five bars, one of them added with an explicit priority between two changes
 	{
 		sp := &Spec{Name: "c06-double-change-add", Refresh: "manual", Q: -1}
